@@ -173,6 +173,12 @@ let respond (line : String.t) : String.t =
     String.concat ";" (List.map (fun q ->
         String.concat "," (List.map (fun n -> string_of_int (nat_to_int n)) (applicable w blocks q)))
         (kids (parse_term queries)))
+  | [ "gi"; blocks; grouping ] ->
+    let kids t = match t with Node (_, ks) -> ks in
+    let rec nat_to_int = function O -> 0 | S n -> 1 + nat_to_int n in
+    (match parse_groups (parse_term grouping) with
+     | None -> "unparsed"
+     | Some gs -> string_of_int (nat_to_int (gi_diagnose (kids (parse_term blocks)) gs)))
   | [ "wf"; s ] ->
     (match subs_of_term (parse_term s) with
      | None -> "nosubs"
